@@ -21,7 +21,8 @@ class CallDoesNotReturn(BaseException):
 
 
 class guard:
-    """``with guard(20): library call``  -- SIGALRM based, main thread of the (worker) process only."""
+    """``with guard(20): library call``  -- limit in seconds of *CPU time of this process* (ITIMER_VIRTUAL), so that a busy
+    machine cannot make a call look endless; main thread of the (worker) process only."""
 
     fired = 0  # per process; after three stalls further guarded calls are not attempted (a tree that loops would otherwise
     #            cost seconds for each of thousands of inputs)
@@ -31,7 +32,7 @@ class guard:
 
     def _fire(self, signum: int, frame: t.Any) -> None:
         guard.fired += 1
-        raise CallDoesNotReturn(f"no result after {self.seconds:g} s")
+        raise CallDoesNotReturn(f"no result after {self.seconds:g} s of CPU time")
 
     def __enter__(self) -> "guard":
         import signal
@@ -39,15 +40,15 @@ class guard:
         if guard.fired >= 3:
             raise CallDoesNotReturn("not attempted: three earlier calls in this process did not return")
 
-        self.old = signal.signal(signal.SIGALRM, self._fire)
-        signal.setitimer(signal.ITIMER_REAL, self.seconds)
+        self.old = signal.signal(signal.SIGVTALRM, self._fire)
+        signal.setitimer(signal.ITIMER_VIRTUAL, self.seconds)
         return self
 
     def __exit__(self, *exc: t.Any) -> None:
         import signal
 
-        signal.setitimer(signal.ITIMER_REAL, 0)
-        signal.signal(signal.SIGALRM, self.old)
+        signal.setitimer(signal.ITIMER_VIRTUAL, 0)
+        signal.signal(signal.SIGVTALRM, self.old)
 UNBIND_PDU = bytes.fromhex("30050201004200")  # an independent, hand-assembled second PDU
 
 
